@@ -24,12 +24,45 @@ type matchModel struct {
 	fresh   map[*ssa.Function]int             // -1 not fresh, 0 fresh container, 1 fresh container of fresh elements
 	// pass: functions whose single result derives only from their own
 	// parameters (by data operations): result roles are taken per call site.
-	pass map[*ssa.Function][]int
+	pass map[*ssa.Function][][]int
+	// fieldRoles: what has been stored into a struct field, by field declaration (the model is field-based for
+	// structs: a record that holds the candidate lists next to the remaining message elements does not merge them)
+	fieldRoles map[*types.Var]map[string]bool
+}
+
+// fieldVar is the declaration of the field a FieldAddr / Field selects.
+func fieldVar(x ssa.Value, field int) *types.Var {
+	t := x.Type()
+	if p, ok := t.Underlying().(*types.Pointer); ok {
+		t = p.Elem()
+	}
+	st, ok := t.Underlying().(*types.Struct)
+	if !ok || field >= st.NumFields() {
+		return nil
+	}
+	return st.Field(field)
+}
+
+// storedField: the struct field an address lies in (the field itself, or an element of an array kept in it).
+func storedField(addr ssa.Value) *types.Var {
+	for {
+		switch x := addr.(type) {
+		case *ssa.IndexAddr:
+			if _, isArr := x.X.Type().Underlying().(*types.Pointer); !isArr {
+				return nil
+			}
+			addr = x.X
+		case *ssa.FieldAddr:
+			return fieldVar(x.X, x.Field)
+		default:
+			return nil
+		}
+	}
 }
 
 func (c *Ctx) newMatchModel() *matchModel {
 	m := &matchModel{c: c, inSet: map[*ssa.Function]bool{}, roles: map[ssa.Value]map[string]bool{}, rets: map[*ssa.Function][]map[string]bool{},
-		writers: map[*ssa.Function]map[[2]int]bool{}, fresh: map[*ssa.Function]int{}}
+		writers: map[*ssa.Function]map[[2]int]bool{}, fresh: map[*ssa.Function]int{}, fieldRoles: map[*types.Var]map[string]bool{}}
 	entries := []*ssa.Function{c.fn("match", "Matcher", "Match"), c.fn("match", "Matcher", "Matches"), c.fn("match", "", "Match")}
 	// closure inside package match
 	var visit func(f *ssa.Function)
@@ -82,42 +115,59 @@ func (c *Ctx) newMatchModel() *matchModel {
 	return m
 }
 
-// solvePass finds pure pass-through helpers (such as the numeric coercion).
+// solvePass finds pure pass-through helpers (such as the numeric coercion, or a wrapper around it that also
+// reports whether it succeeded): no map access, no store, no loop over a map, and no call other than of another
+// such helper.  For each result, the parameters it derives from.
 func (m *matchModel) solvePass() {
-	m.pass = map[*ssa.Function][]int{}
-	for _, f := range m.fns {
-		if f.Signature.Results().Len() != 1 {
-			continue
-		}
-		hasCall := false
-		ssau.Instrs(f, func(in ssa.Instruction) {
-			if ci, ok := in.(ssa.CallInstruction); ok {
-				if _, isB := ci.Common().Value.(*ssa.Builtin); !isB {
-					hasCall = true
+	m.pass = map[*ssa.Function][][]int{}
+	for changed := true; changed; {
+		changed = false
+		for _, f := range m.fns {
+			if _, have := m.pass[f]; have || f.Signature.Results().Len() == 0 {
+				continue
+			}
+			hasCall := false
+			ssau.Instrs(f, func(in ssa.Instruction) {
+				if ci, ok := in.(ssa.CallInstruction); ok {
+					if _, isB := ci.Common().Value.(*ssa.Builtin); !isB {
+						sc := ci.Common().StaticCallee()
+						if _, isPass := m.pass[sc]; sc == nil || !isPass {
+							hasCall = true
+						}
+					}
+				}
+				switch in.(type) {
+				case *ssa.Lookup, *ssa.MapUpdate, *ssa.Store, *ssa.Range:
+					hasCall = true // not a pure data pass-through
+				}
+			})
+			if hasCall {
+				continue
+			}
+			nres := f.Signature.Results().Len()
+			srcs := make([]map[string]bool, nres)
+			for i := range srcs {
+				srcs[i] = map[string]bool{}
+			}
+			for _, b := range f.Blocks {
+				if ret, ok := b.Instrs[len(b.Instrs)-1].(*ssa.Return); ok {
+					for i := 0; i < nres && i < len(ret.Results); i++ {
+						paramSources(ret.Results[i], map[ssa.Value]bool{}, srcs[i])
+					}
 				}
 			}
-			switch in.(type) {
-			case *ssa.Lookup, *ssa.MapUpdate, *ssa.Store, *ssa.Range:
-				hasCall = true // not a pure data pass-through
+			idx := make([][]int, nres)
+			for r := range idx {
+				for i, p := range f.Params {
+					if srcs[r][p.Name()] {
+						idx[r] = append(idx[r], i)
+					}
+				}
 			}
-		})
-		if hasCall {
-			continue
-		}
-		srcs := map[string]bool{}
-		for _, b := range f.Blocks {
-			if ret, ok := b.Instrs[len(b.Instrs)-1].(*ssa.Return); ok {
-				paramSources(ret.Results[0], map[ssa.Value]bool{}, srcs)
+			if len(idx[0]) > 0 {
+				m.pass[f] = idx
+				changed = true
 			}
-		}
-		var idx []int
-		for i, p := range f.Params {
-			if srcs[p.Name()] {
-				idx = append(idx, i)
-			}
-		}
-		if len(idx) > 0 {
-			m.pass[f] = idx
 		}
 	}
 }
@@ -180,9 +230,18 @@ func (m *matchModel) solveRoles() {
 				case *ssa.Index:
 					up(x, x.X)
 				case *ssa.FieldAddr:
-					up(x, x.X)
+					if fv := fieldVar(x.X, x.Field); fv != nil {
+						if m.addAll(x, m.fieldRoles[fv]) {
+							changed = true
+						}
+					} else {
+						up(x, x.X)
+					}
 				case *ssa.Field:
 					up(x, x.X)
+					if fv := fieldVar(x.X, x.Field); fv != nil && m.addAll(x, m.fieldRoles[fv]) {
+						changed = true
+					}
 				case *ssa.Lookup:
 					if isBindings(x.X.Type()) {
 						// a bound value is "from the bindings", whatever was bound
@@ -199,6 +258,15 @@ func (m *matchModel) solveRoles() {
 				case *ssa.Extract:
 					if cl, ok := x.Tuple.(*ssa.Call); ok {
 						if sc := cl.Common().StaticCallee(); sc != nil && m.inSet[sc] {
+							if idx, isPass := m.pass[sc]; isPass && x.Index < len(idx) {
+								// a pass-through helper: the result is what this call was given
+								for _, i := range idx[x.Index] {
+									if i < len(cl.Common().Args) {
+										up(x, cl.Common().Args[i])
+									}
+								}
+								return
+							}
 							if rs := m.rets[sc]; x.Index < len(rs) {
 								if m.addAll(x, rs[x.Index]) {
 									changed = true
@@ -228,7 +296,19 @@ func (m *matchModel) solveRoles() {
 						up(x, e)
 					}
 				case *ssa.Store:
-					up(containerOf(x.Addr), x.Val)
+					if fv := storedField(x.Addr); fv != nil {
+						if m.fieldRoles[fv] == nil {
+							m.fieldRoles[fv] = map[string]bool{}
+						}
+						for r := range m.roles[x.Val] {
+							if !m.fieldRoles[fv][r] {
+								m.fieldRoles[fv][r] = true
+								changed = true
+							}
+						}
+					} else {
+						up(containerOf(x.Addr), x.Val)
+					}
 				case *ssa.MapUpdate:
 					if !isBindings(x.Map.Type()) {
 						up(x.Map, x.Value)
@@ -274,8 +354,8 @@ func (m *matchModel) solveRoles() {
 								up(sc.Params[i], a)
 							}
 						}
-						if idx, isPass := m.pass[sc]; isPass {
-							for _, i := range idx {
+						if idx, isPass := m.pass[sc]; isPass && len(idx) == 1 {
+							for _, i := range idx[0] {
 								if i < len(args) {
 									up(x, args[i])
 								}
